@@ -23,7 +23,9 @@ pub fn symbol_program(rng: &mut Rng) -> Vec<u8> {
     let mut s = String::new();
     s.push_str("#ruledef\n{\n    ld {x: u8} => 0x10 @ x\n    jmp {a: u16} => 0x20 @ a\n    nop => 0x00\n    blk {a: u16}, {b: u8} => asm {\n        first:\n        jmp {a}\n        second:\n        ld {b}\n        jmp first\n        jmp second\n    }\n}\n\n");
     let nglob = rng.range(2, 7);
-    let names = ["alpha", "beta", "gamma", "delta", "eps", "zeta", "eta", "theta"];
+    // families of names at equal edit distance from a typo (alpha/alphc,
+    // beta/bets/betb, eta/zeta/beta)
+    let names = if rng.chance(1, 2) { ["alpha", "beta", "gamma", "delta", "eps", "zeta", "eta", "theta"] } else { ["alpha", "alphc", "beta", "bets", "betb", "lab1", "lab2", "lab4"] };
     for g in 0..nglob {
         s.push_str(&format!("{}:\n", names[g]));
         s.push_str(&format!("    ld {}\n", g * 3 + 1));
@@ -44,11 +46,15 @@ pub fn symbol_program(rng: &mut Rng) -> Vec<u8> {
     if rng.chance(1, 3) {
         // several independent errors
         for _ in 0..rng.range(2, 4) {
-            s.push_str(match rng.below(5) {
+            s.push_str(match rng.below(8) {
                 0 => "    bogus 1, 2\n",
                 1 => "    ld undefined_symbol\n",
                 2 => "    jmp another_missing\n",
                 3 => "    ld 0x1ff\n",
+                // near misses of declared names (several equally close)
+                4 => "    jmp alphb\n",
+                5 => "    jmp bet\n",
+                6 => "    ld gammma_const\n",
                 _ => "    nop nop\n",
             });
         }
@@ -264,8 +270,11 @@ pub fn convergence_program(rng: &mut Rng) -> Vec<u8> {
 pub fn big_program(rng: &mut Rng) -> Vec<u8> {
     let mut s = String::from("#ruledef\n{\n    op {v: u8} => 0x10 @ v\n    nop => 0x00\n    jp {a: u16} => 0x20 @ a\n}\n\ntop:\n");
     let n = rng.range(260, 700);
-    let nbad = rng.range(2, 5);
-    let mut bad: Vec<usize> = (0..nbad).map(|_| rng.below(n)).collect();
+    // (sometimes exactly 256 unmatched instructions: a diagnostics count
+    // that is a multiple of 256 must not turn into exit status 0)
+    let nbad = if rng.chance(1, 4) { 256 } else { rng.range(2, 5) };
+    let n = if nbad == 256 { n.max(300) } else { n };
+    let mut bad: Vec<usize> = if nbad == 256 { (0..256).collect() } else { (0..nbad).map(|_| rng.below(n)).collect() };
     bad.sort();
     for i in 0..n {
         if bad.contains(&i) {
@@ -302,7 +311,7 @@ pub fn feature_mix_program(rng: &mut Rng) -> Vec<u8> {
     let nblocks = rng.range(2, 7);
     let mut used: Vec<usize> = Vec::new();
     for i in 0..nblocks {
-        let kind = rng.below(14);
+        let kind = rng.below(18);
         used.push(kind);
         match kind {
             0 => {
@@ -345,6 +354,27 @@ pub fn feature_mix_program(rng: &mut Rng) -> Vec<u8> {
             12 => {
                 s.push_str(&format!("w{i} = 0x1234\n#d8 w{i}[7:0]\n#d8 w{i}[15:8]\n#d (w{i}[3:0] @ 0b1010)`8\n#d8 (w{i} >> 4)`8\n#d8 w{i} % 7 == 0 ? 1 : 0\n", i = i));
             }
+            14 => {
+                // an asm block with a {local} substitution inside a constant
+                // definition / #assert (no instruction around it)
+                let target = if rng.chance(1, 3) { "nosuchinstr" } else { "emitc" };
+                s.push_str(&format!("#ruledef\n{{\n    emitc{i} {{v: u8}} => v\n}}\nval{i} =\n{{\n    y = {}\n    asm {{ {}{i} {{y}} }}\n}}\n#d8 val{i}\n", rng.below(200), target, i = i));
+                if rng.chance(1, 2) {
+                    s.push_str(&format!("#assert {{ z = 1, asm {{ {}{i} {{z}} }} }} == 1\n", target, i = i));
+                }
+            }
+            15 => {
+                // a constant whose expression carries its own assert and depends
+                // on a label / $ (only the full resolver can evaluate it)
+                s.push_str(&format!("chk{i} =\n{{\n    assert(end{i} <= {}, \"program too large\")\n    end{i}\n}}\n#d8 1, 2, 3\nend{i}:\n", rng.pick(&["1", "2", "0x10", "0x1000", "0x100000"]), i = i));
+                if rng.chance(1, 2) {
+                    s.push_str(&format!("#d8 chk{i}`8\n", i = i));
+                }
+            }
+            16 => {
+                // addresses beyond 16 bits (formats with an address field)
+                s.push_str(&format!("#addr {}\nhigh{i}:\n#d8 0x5a, high{i}`8\n", rng.pick(&["0x10000", "0xffff", "0x12345", "0x10002"]), i = i));
+            }
             _ => {
                 if banked && rng.chance(1, 2) {
                     s.push_str("#addr $ + 4\n");
@@ -374,7 +404,18 @@ pub fn feature_mix_program(rng: &mut Rng) -> Vec<u8> {
 /// Job `k` of the pool for this seed: a pure function of (seed, k).
 pub fn pool_job(seed: u64, k: usize, c: &Corpus) -> Job {
     let mut rng = Rng::new(seed).fork_n("c10-pool", k as u64);
-    let kind = rng.below(100);
+    let kind = rng.below(112);
+    if kind >= 100 {
+        // an inclusion-heavy case of the C14 generator (includes, #once,
+        // inclusion functions through rules/functions/asm blocks): the same
+        // file names recur across jobs with different content, which is what
+        // a cache outliving its assembly would trip over
+        let mut case = crate::c14::draw_case(&mut rng);
+        case.fault = None;
+        let mut job = case.render();
+        job.name = format!("c14case:{}", k);
+        return job;
+    }
     if kind < 35 {
         // corpus root with its own command line, random knobs
         let ridx = rng.below(c.roots.len());
